@@ -347,7 +347,8 @@ func evalC03(t *testing.T, c *Case, st *Stats, relax Relax) *Violation {
 			}
 		}
 		nonEmpty := 0
-		for p, b := range want {
+		for _, p := range sortedKeys(want) { // never in map order: the order of the calls is part of the run
+			b := want[p]
 			if len(b) > 0 {
 				nonEmpty++
 			}
@@ -509,7 +510,8 @@ func evalC03(t *testing.T, c *Case, st *Stats, relax Relax) *Violation {
 // tapeCodecRoundTrip exercises compression.Compress/Decompress with
 // isRegular=false: either a clean, documented rejection or a byte-exact round trip.
 func tapeCodecRoundTrip(c *Case, st *Stats, want map[string][]byte) *Violation {
-	for p, b := range want {
+	for _, p := range sortedKeys(want) {
+		b := want[p]
 		var buf bytes.Buffer
 		w, err := compression.Compress(&buf, c.Cfg.Compression, c.Cfg.Level, false, c.Cfg.RecordSize)
 		if err != nil {
@@ -545,4 +547,15 @@ func tapeCodecRoundTrip(c *Case, st *Stats, want map[string][]byte) *Violation {
 		st.Add("tape_codec_roundtrips", 1)
 	}
 	return nil
+}
+
+// sortedKeys returns the keys of a map in sorted order (map iteration order is randomised per process
+// and must never decide the order of calls or which of several violations is reported).
+func sortedKeys[V any](m map[string]V) []string {
+	ks := make([]string, 0, len(m))
+	for k := range m {
+		ks = append(ks, k)
+	}
+	sort.Strings(ks)
+	return ks
 }
